@@ -113,7 +113,7 @@ class PeerScenario(Scenario):
     terminates or the horizon."""
 
     max_steps = 40000
-    max_time = 80.0
+    max_time = 40.0
 
     def __init__(self, role, events, user=("associate", "release"), closure="silent", monitors=(), stop_at_end=False):
         self.role = role
@@ -159,6 +159,9 @@ class PeerScenario(Scenario):
                 if a == "__exit__":
                     return
                 ctx["peer_log"].append(a)
+                if isinstance(a, tuple):  # ("at", absolute virtual time, action)
+                    s.block("peer.sleep", None, None, timeout=max(0.0, a[1] - s.now))
+                    a = a[2]
                 do_peer(a)
 
         if self.role == "acceptor":
@@ -237,6 +240,15 @@ class PeerScenario(Scenario):
                 ctx["events_done"] += 1
                 if e[0] == "peer":
                     peer["pending"] = e[1]
+                    return True
+                if e[0] == "race":
+                    # the peer acts at (next pending deadline + delta): before,
+                    # within and after the reactor pass that sees the expiry
+                    dls = _deadlines(sched)
+                    j = e[3] if len(e) > 3 else 0
+                    if j >= len(dls):
+                        return False
+                    peer["pending"] = ("at", dls[j] + RACE_DELTAS[e[2]], e[1])
                     return True
                 if e[0] == "user":
                     if not _user_waiting(sched):
@@ -356,7 +368,7 @@ def mon_peer_terminates(scn, s, ctx, why):
 
 
 def _expand(args):
-    role, user, hist, monitors = args
+    role, user, hist, monitors, races = args
     from vk import explore
 
     # closure run: history then silence; all monitors
@@ -378,10 +390,30 @@ def _expand(args):
                 menu += [("peer", a) for a in PEER_ACTIONS]
             if has_deadline:
                 menu.append(("tick",))
+                if races and not ctx["peer"]["closed"] and ctx["peer"]["sock"] is not None:
+                    nd = min(2, len(_deadlines(s)))
+                    menu += [("race", a, k, j) for a in RACE_ACTIONS for k in range(len(RACE_DELTAS)) for j in range(nd)]
             if role == "requestor" and ctx["user"]["pos"] + len([1 for e in hist if e[0] == "user"]) - ctx["user"]["pos"] < len(user) and _user_waiting(s):
                 menu.append(("user",))
         steps = s.steps + r["steps"]
     return hist, key, menu, viol, r["summary"], steps
+
+
+RACE_DELTAS = (-0.0015, 0.0, 0.0015)
+RACE_ACTIONS = ("rq", "ac", "echo-rq", "release-rq", "release-rp", "abort", "close")
+
+
+def _deadlines(s):
+    """Distinct pending instants at which something can time out, ascending."""
+    live = s.live_threads()
+    c = [t.deadline for t in live if t.deadline is not None and not t.is_poll and t.deadline > s.now]
+    if any(t.is_poll for t in live):
+        c += [d for d in s.timer_deadlines() if d > s.now]
+    out = []
+    for d in sorted(c):
+        if not out or d - out[-1] > 1e-9:
+            out.append(d)
+    return out
 
 
 def _has_deadline(s):
@@ -400,7 +432,7 @@ def _expand_chunk(items):
     return [_expand(it) for it in items]
 
 
-def bfs(role, user, monitors, max_depth, seed=0, log=None, max_states=None):
+def bfs(role, user, monitors, max_depth, seed=0, log=None, max_states=None, races=True):
     seen = {}
     frontier = [()]
     viols = {}
@@ -409,7 +441,7 @@ def bfs(role, user, monitors, max_depth, seed=0, log=None, max_states=None):
     depth = 0
     fix = False
     while frontier and depth <= max_depth:
-        items = [(role, user, h, monitors) for h in frontier]
+        items = [(role, user, h, monitors, races) for h in frontier]
         n = max(1, min(len(items), core.NPROC * 4))
         parts = [items[i::n] for i in range(n)]
         res = core.pmap(_expand_chunk, [(p,) for p in parts if p], seed=seed)
@@ -420,7 +452,7 @@ def bfs(role, user, monitors, max_depth, seed=0, log=None, max_states=None):
             stats["executions"] += 2
             stats["steps"] += steps
             summaries[summ] += 1
-            last = next((e[1] if e[0] == "peer" else e[0] for e in reversed(hist) if e[0] != "tick"), "start")
+            last = next((e[1] if e[0] == "peer" else (f"race-{e[1]}{e[2]}{'' if len(e) < 4 or not e[3] else 'b'}" if e[0] == "race" else e[0]) for e in reversed(hist) if e[0] != "tick"), "start")
             for k, what in viol:
                 kk = f"{role}:{k}:after-{last}"
                 if kk not in viols:
